@@ -56,7 +56,13 @@ Definition pin_dup_spec (id : Z) : list Z :=
   if id =? 30 then [1] else if id =? 31 then [1] else if id =? 32 then [1] else if id =? 33 then [9]
   else if id =? 34 then [0] else if id =? 35 then [3] else [].
 Definition pin_dup_model (id : Z) : list Z := pin_dup_spec id.
+(* ids 40-45: the value of a block / try / with / if-branch block whose statement list produces no value.  ES5 12.1: the
+   empty completion, so the program's value is that of the statement before it (7); otto gives the block the value
+   undefined (finding C01-valueless-block-undefined, open; observed [] = not a number).  44, 45: controls *)
+Definition pin_blk_spec (id : Z) : list Z := if id =? 45 then [8] else [7].
+Definition pin_blk_model (id : Z) : list Z := if id =? 44 then [7] else if id =? 45 then [8] else [].
 Definition pin_spec (id : Z) : list Z :=
+  if (40 <=? id) && (id <=? 45) then pin_blk_spec id else
   if (30 <=? id) && (id <=? 35) then pin_dup_spec id else
   if (20 <=? id) && (id <=? 26) then pin_acc id else
   if (id =? 4) || (id =? 9) || (id =? 10) then [0; 1] else if (id =? 8) then [0; 2]
@@ -64,6 +70,7 @@ Definition pin_spec (id : Z) : list Z :=
 (* otto: every declaration goes through the same createBinding(name, deletable = false) / global property with
    configurable = false, whatever code declares it (cmplVariableDeclaration, cmplFunctionDeclaration) *)
 Definition pin_model (id : Z) : list Z :=
+  if (40 <=? id) && (id <=? 45) then pin_blk_model id else
   if (30 <=? id) && (id <=? 35) then pin_dup_model id else
   if (20 <=? id) && (id <=? 26) then pin_acc id else
   if (id =? 5) then [1; 0]
@@ -130,7 +137,7 @@ Definition verdict (c : case) : Z * Z :=
         judge obs_eqb (lg, oc) (out so, project mode oo) (out ss, project mode os)
               (if wf (SBlock p) then 0 else 1)
       end
-  | PinCase id obs => judge (list_eqb Z.eqb) obs (pin_model id) (pin_spec id) (if 30 <=? id then 4 else 3)
+  | PinCase id obs => judge (list_eqb Z.eqb) obs (pin_model id) (pin_spec id) (if 40 <=? id then 5 else if 30 <=? id then 4 else 3)
   | FCase p lg oc cv agree =>
       let '(ml, mo, mcv) := Full.run_program_cv ffuel p in
       match mo with
@@ -144,6 +151,11 @@ Definition verdict (c : case) : Z * Z :=
         else if negb agree then (3, 9)
         else if fobs_eqb (lg, oc, mcv) (ml, mo, mcv) && negb (fval_eqb cv mcv) && Full.has_jump_top p
              then (1, 2)   (* finding class 2: the value of a statement list is lost when it ends in break/continue *)
+        (* finding class 5: a block / try / with whose statements produce no value has the value undefined in otto instead of
+           the empty completion, so the program's value is undefined where ES5 keeps an earlier statement's value.  Only
+           this shape is attributed: same log and outcome, observed value undefined, global code contains such a statement *)
+        else if fobs_eqb (lg, oc, mcv) (ml, mo, mcv) && negb (fval_eqb cv mcv) && fval_eqb cv WUndef && Full.has_block_top p
+             then (1, 5)
         else judge fobs_eqb (lg, oc, cv) (ml, mo, mcv) (ml, mo, mcv) 0
       end
   end.
